@@ -268,6 +268,62 @@ def run(ctx: Ctx) -> None:
     if not k_:
         raise AnalysisError("anchor vanished: the use of the file-name parameter in _gcc_filter")
 
+    # ---------------------------------------------------------------- R19.8
+    # "whatever the files and directories are called": a filter that pulls the file name out of a marker with a regular
+    # expression must let the name be anything a marker can hold.  Every capturing group of a regular expression used in a
+    # filter that can hold an ordinary letter can also hold a blank (`\S*` for the name drops "my app/main.h").
+    ctx.rule("R19.8", "a regular expression that extracts the file name from a line marker admits blanks in the name", minimum=0)
+    import re as _re8
+    try:
+        import re._parser as _sp8  # type: ignore
+    except Exception:  # pragma: no cover
+        import sre_parse as _sp8  # type: ignore
+    from ..rx import Auto as _Auto8
+    consts8: Dict[str, str] = {}
+    for st in pp.tree.body:
+        if isinstance(st, ast.Assign) and len(st.targets) == 1 and isinstance(st.targets[0], ast.Name) and isinstance(st.value, ast.Call) and norm(st.value.func) == "re.compile" \
+                and st.value.args and isinstance(st.value.args[0], ast.Constant) and isinstance(st.value.args[0].value, str):
+            consts8[st.targets[0].id] = st.value.args[0].value
+    for filt in FILTERS:
+        try:
+            ffn = pp.func(filt)
+        except AnalysisError:
+            continue
+        pats = [(x.id, consts8[x.id]) for x in ast.walk(ffn) if isinstance(x, ast.Name) and x.id in consts8]
+        pats += [("<inline>", c.args[0].value) for c in ast.walk(ffn) if isinstance(c, ast.Call) and norm(c.func) in ("re.match", "re.search", "re.compile", "re.fullmatch") and c.args
+                 and isinstance(c.args[0], ast.Constant) and isinstance(c.args[0].value, str)]
+        for pname, pat in dict(pats).items():
+            try:
+                tree8 = _sp8.parse(pat)
+            except Exception:
+                continue
+            def groups(items):
+                for op, av in items:
+                    if str(op) == "SUBPATTERN":
+                        if av[0] is not None:
+                            yield av[0], av[3]
+                        yield from groups(av[3])
+                    elif str(op) == "BRANCH":
+                        for alt in av[1]:
+                            yield from groups(alt)
+                    elif str(op) in ("MAX_REPEAT", "MIN_REPEAT"):
+                        yield from groups(av[2])
+            for gi, sub in groups(list(tree8)):
+                import copy as _cp
+                # language of the group alone: re-parse its source is not available, so test by automaton over the sub-pattern
+                a8 = _Auto8.__new__(_Auto8)
+                try:
+                    _Auto8.__init__(a8, "x", 0)
+                    a8.pos, a8.follow, a8.mult, a8.approx, a8.loops, a8._groups = [], {}, {}, [], [], {}
+                    n_, f_, l_, nf_ = a8._seq(list(sub))
+                    letters = any("a" in S for S in a8.pos)
+                    blank = any(" " in S for S in a8.pos)
+                except Exception:
+                    continue
+                if letters:
+                    ctx.ob("R19.8", f"preprocessor:{filt}|group {gi} of {pname}", blank,
+                           msg=f"group {gi} of {pat!r} can hold letters but no blank: a file or directory name with a blank in it is never recognised in a line marker, so its declarations are kept or dropped wrongly", node=ffn, mod=pp, nontrivial=False)
+
     # ---------------------------------------------------------------- R19.4
     # "reported line numbers still refer to the main file": the filters keep the line
     # markers (R19.2) and the lexer re-bases on them; the re-basing arithmetic is C10's
